@@ -13,7 +13,6 @@ import (
 	"os"
 	"path/filepath"
 	"sort"
-	"strings"
 
 	"github.com/cbergoon/merkletree"
 	"github.com/meshplus/bitxhub-kit/crypto"
@@ -247,6 +246,32 @@ func (e ICEntry) MarshalJSON() ([]byte, error) {
 	return json.Marshal([]interface{}{e.Key, idx})
 }
 
+var icKeys = map[string]uint64{}
+
+// ICKeyID: the driver's own keys "k000123" are 123; any other key (real chain / service ids of
+// executor-level runs) gets 1000, 1001, ... in order of first appearance (process-wide).
+func ICKeyID(k string) uint64 {
+	var key uint64
+	if n, _ := fmt.Sscanf(k, "k%06d", &key); n == 1 && len(k) == 7 {
+		return key
+	}
+	if id, ok := icKeys[k]; ok {
+		return id
+	}
+	id := uint64(1000 + len(icKeys))
+	icKeys[k] = id
+	return id
+}
+
+// SortIC orders counter entries by key id
+func SortIC(es []ICEntry) []ICEntry {
+	sort.SliceStable(es, func(i, j int) bool { return es[i].Key < es[j].Key })
+	if es == nil {
+		es = []ICEntry{}
+	}
+	return es
+}
+
 // CanonIC reads an interchain meta back into (sorted counter, tag)
 func CanonIC(m *pb.InterchainMeta) ([]ICEntry, uint64) {
 	var out []ICEntry
@@ -256,8 +281,7 @@ func CanonIC(m *pb.InterchainMeta) ([]ICEntry, uint64) {
 	}
 	sort.Strings(keys)
 	for _, k := range keys {
-		var key uint64
-		fmt.Sscanf(strings.TrimPrefix(k, "k"), "%d", &key)
+		key := ICKeyID(k)
 		e := ICEntry{Key: key, Idx: []uint64{}}
 		if m.Counter[k] != nil {
 			for _, v := range m.Counter[k].Slice {
@@ -270,10 +294,48 @@ func CanonIC(m *pb.InterchainMeta) ([]ICEntry, uint64) {
 	if ts, ok := m.TimeoutCounter["t"]; ok && ts != nil && len(ts.Slice) == 1 {
 		fmt.Sscanf(ts.Slice[0], "tag%d", &tag)
 	}
-	if out == nil {
-		out = []ICEntry{}
+	return SortIC(out), tag
+}
+
+// ExecutedIC recomputes the interchain counter of a block from what was ACTUALLY EXECUTED: the
+// interchain events in the receipts of its transactions, in transaction order (a failed
+// transaction delivers nothing) -- independently of the executor's per-block counter and of
+// the stored interchain meta.
+func ExecutedIC(receipts []*pb.Receipt) []ICEntry {
+	byKey := map[uint64]*ICEntry{}
+	var order []uint64
+	for _, r := range receipts {
+		if r.Status == pb.Receipt_FAILED {
+			continue
+		}
+		for _, ev := range r.Events {
+			if ev.EventType != pb.Event_INTERCHAIN {
+				continue
+			}
+			m := map[string]*pb.EventWrapper{}
+			if err := json.Unmarshal(ev.Data, &m); err != nil {
+				continue
+			}
+			ks := make([]string, 0, len(m))
+			for k := range m {
+				ks = append(ks, k)
+			}
+			sort.Strings(ks)
+			for _, k := range ks {
+				id := ICKeyID(k)
+				if byKey[id] == nil {
+					byKey[id] = &ICEntry{Key: id, Idx: []uint64{}}
+					order = append(order, id)
+				}
+				byKey[id].Idx = append(byKey[id].Idx, m[k].Index)
+			}
+		}
 	}
-	return out, tag
+	var out []ICEntry
+	for _, id := range order {
+		out = append(out, *byKey[id])
+	}
+	return SortIC(out)
 }
 
 // ExecRoot is the executor's OWN helper (calcMerkleRoot through the add-only hook): what the
